@@ -697,6 +697,39 @@ def gen_planted(rng, gname, d=20):
             "planted": [list(x) for x in pair]}
 
 
+def gen_planted_novel(rng, gname, d=20):
+    """noise-free evidence of two catalogued default-structure copies ONE of which carries, in addition, a function-altering variant
+    of the catalogue that neither allele defines - preferably outside the exons (the evidence filter of estimate_minor keeps a
+    variant only if it is in the considered set or lies in an exon / UTR / upstream region: a major solution's novel addition has
+    to be in the considered set).  The major solution names it as added; nothing may be lost."""
+    from aldy.gene import Mutation
+    g = gene(gname)
+    default = [a for a, al in g.alleles.items() if al.cn_config == "1"]
+    pair = []
+    for _ in range(2):
+        mj = rng.choice(default)
+        pair.append((mj, rng.choice(list(g.alleles[mj].minors))))
+    carried = {(m.pos, m.op) for mj, mi in pair for m in set(g.alleles[mj].func_muts) | set(g.alleles[mj].minors[mi].neutral_muts)}
+    taken = {p for p, _ in carried}
+    pool = [(p, o) for (p, o) in g.mutations if g.is_functional((p, o)) and p not in taken and g.region_at(p) and g.region_at(p)[0] == 0
+            and not o.startswith("ins") and not o.startswith("del")]
+    if not pool:
+        return None
+    outside = [w for w in pool if not (g.region_at(w[0])[1][0] == "e" or g.region_at(w[0])[1] in ("utr3", "utr5", "up"))]
+    v = rng.choice(outside) if outside and rng.random() < 0.8 else rng.choice(pool)
+    table, mult = planted_table(g, ["1", "1"], pair, d)
+    if (v[0], "_") in table or any(p == v[0] for (p, o) in table):
+        return None
+    table[(v[0], v[1])] = d
+    table[(v[0], "_")] = d
+    cnt = collections.Counter(mj for mj, _ in pair)
+    return {"stream": "noise-free-novel", "gene": gname, "cn": ["1", "1"],
+            "majors": [{"alleles": sorted(cnt.items()), "added": [[v[0], v[1]]], "score": 0.0}],
+            "table": sorted([p, o, c] for (p, o), c in table.items()), "phases": None, "params": {},
+            "planted": [list(x) for x in pair], "planted_added": [[v[0], v[1]]],
+            "novel_region": g.region_at(v[0])[1]}
+
+
 def gen_planted_toy(rng):
     g = gene("toy")
     cn, majors = rng.choice([x for x in TOY_MAJORS])
@@ -829,7 +862,7 @@ def evaluate(chk, cases):
                  "OL [" + "; ".join(f"o_eval {variant} here i {coq_asg(a)}" for a, _, _ in rep) + "]"]
         # premise of C04_minor_noise_free (decidable, MinorNoiseFreeProofs.noise_free_b): the planted assignment is admissible and
         # scores 0 under the model's own objective - evaluated on the first minor call of every noise-free case
-        pl = planted_tuples(case, inst) if ("planted" in case and ci == 0) else None
+        pl = planted_tuples(case, inst) if ("planted" in case and ci == 0 and not case.get("planted_added")) else None
         parts.append(f"o_bool (noise_free_b here i {coq_asg(pl)})" if pl is not None else "OL []")
         terms.append(f"(let i := {coq_inst(inst)} in OL [{'; '.join(parts)}])")
     vals = common.coq_eval(IMPORTS, terms, shard=max(1, min(12, (len(terms) + 11) // 12)), jobs=12, timeout=900) if terms else []
@@ -1001,6 +1034,9 @@ def judge_planted(chk, case, inst, a, sc, d):
         for m in set(g.alleles[mj].func_muts) | set(g.alleles[mj].minors[mi].neutral_muts):
             if g.has_coverage(mj, m.pos):
                 want[(m.pos, m.op)] += 1
+    allowed = collections.Counter((p, o) for p, o in case.get("planted_added", []))
+    for w, c in allowed.items():
+        want[w] += c
     muts = {m["id"]: m for m in inst["muts"]}
     cands = {c["id"]: c for c in inst["cands"]}
     got = collections.Counter()
@@ -1009,9 +1045,10 @@ def judge_planted(chk, case, inst, a, sc, d):
         for x in list(k) + list(n):
             got[(muts[x]["pos"], muts[x]["op"])] += 1
         missing = [x for x in cands[cid]["def"] if x not in k and muts[x]["pos"] in cands[cid]["covpos"]]
-        if n or missing:
-            extra.append((cands[cid]["minor"], [muts[x]["op"] for x in n], [muts[x]["op"] for x in missing]))
-    if +want != +got or extra or sc > 1e-6:
+        unplanned = [x for x in n if (muts[x]["pos"], muts[x]["op"]) not in allowed]
+        if unplanned or missing:
+            extra.append((cands[cid]["minor"], [muts[x]["op"] for x in unplanned], [muts[x]["op"] for x in missing]))
+    if +want != +got or extra or (sc > 1e-6 and not allowed):      # a planted novel addition costs its penalty: the score is then not 0
         chk.fail("noise-free", d, case, {"planted": dict((f"{p}.{o}", c) for (p, o), c in want.items()), "score": 0},
                  {"carried": dict((f"{p}.{o}", c) for (p, o), c in got.items()), "additions/losses": extra, "score": sc})
 
@@ -1043,6 +1080,8 @@ def run(chk):
     cases += [gen_toy(rng, k) for k in range(200 if quick else 2500)]
     cases += [gen_toy_phased(rng, k) for k in range(12 if quick else 150)]
     cases += [gen_planted_toy(rng) for _ in range(30 if quick else 300)]
+    for gname, n in ([("toy", 10), ("cyp2c19", 6)] if quick else [("toy", 80), ("cyp2c19", 40), ("cyp2c9", 30), ("cyp3a5", 20), ("tpmt", 20), ("cyp2d6", 10)]):
+        cases += [c for c in (gen_planted_novel(rng, gname) for _ in range(n)) if c is not None]
     if not quick:
         for gname, n in [("cyp2c19", 30), ("cyp2c9", 30), ("nudt15", 30), ("tpmt", 30), ("cyp3a5", 30), ("slco1b1", 25), ("cyp2d6", 12)]:
             cases += [gen_planted(rng, gname) for _ in range(n)]
